@@ -14,7 +14,7 @@ import time
 
 HERE = os.path.dirname(os.path.abspath(__file__))
 VERIF = os.path.dirname(HERE)
-REPO = "/repo"
+REPO = os.environ.get("FSV_REPO", "/repo")      # scratch mode: another worktree (see DESIGN.md section 10)
 
 
 def sh(cmd, **kw):
@@ -31,6 +31,8 @@ def main():
     if "--prop" in sys.argv:
         only_prop = sys.argv[sys.argv.index("--prop") + 1]
         args = [a for a in args if a != only_prop]
+    if "--after" in sys.argv:
+        args = [a for a in args if a != sys.argv[sys.argv.index("--after") + 1]]
     muts = json.load(open(os.path.join(HERE, "mutants.json")))
     if "--all" in sys.argv:
         sel = [m for m in muts if not only_prop or m["prop"] == only_prop]
@@ -39,6 +41,10 @@ def main():
     if sh("git -C %s status --porcelain --untracked-files=no" % REPO).stdout.strip():
         print("refusing: /repo working tree is not clean")
         return 2
+    if "--after" in sys.argv:       # resume: skip everything up to and including this mutant id
+        last = sys.argv[sys.argv.index("--after") + 1]
+        ids = [m["id"] for m in sel]
+        sel = sel[ids.index(last) + 1:]
     for m in sel:
         path = os.path.join(REPO, m["file"])
         src = open(path).read()
@@ -74,7 +80,7 @@ def main():
             with open(os.path.join(HERE, "results.jsonl"), "a") as f:
                 f.write(json.dumps(rec) + "\n")
         finally:
-            sh("git -C %s checkout -- ." % REPO)
+            sh("git -C %s checkout -- . && find %s/src -name '*.rs' -exec touch {} +" % (REPO, REPO))
     return 0
 
 
